@@ -52,13 +52,16 @@ type OpSpec struct {
 }
 
 type Scenario struct {
-	CacheLen int       `json:"cache_len"`
-	CacheMem int       `json:"cache_mem"`
-	Start    uint64    `json:"start"`
-	Headers  []HdrSpec `json:"headers"`
-	Ops      []OpSpec  `json:"ops"`
-	FinishAt int       `json:"finish_at,omitempty"` // index in Ops where "everything expires, a fresh honest peer answers" starts (0 = no such phase)
-	Comment  string    `json:"comment,omitempty"`
+	CacheLen      int       `json:"cache_len"`
+	CacheMem      int       `json:"cache_mem"`
+	Start         uint64    `json:"start"`
+	Headers       []HdrSpec `json:"headers"`
+	Ops           []OpSpec  `json:"ops"`
+	FinishAt      int       `json:"finish_at,omitempty"`      // index in Ops where "everything expires, one honest peer answers" starts (0 = no such phase); a replay runs Ops[:FinishAt] and then drives that phase again from the three fields below
+	FinishPeer    int       `json:"finish_peer,omitempty"`    // 0 = a fresh peer, k = existing peer k-1
+	FinishPartial bool      `json:"finish_partial,omitempty"` // the peer truncates its (truthful) responses
+	FinishSeed    uint64    `json:"finish_seed,omitempty"`
+	Comment       string    `json:"comment,omitempty"`
 }
 
 // ---- runner ----------------------------------------------------------------
@@ -84,7 +87,10 @@ type runner struct {
 	reqs     []*request
 	cur      map[int]*request // open request per peer
 	steps    []string         // coq text of (op, obs, digest)
-	midAt    int              // number of steps before the finishing phase (-1: none)
+	dirty    map[int]bool     // peers that answered an open request with anything but a non-empty truthful prefix
+	answered map[int]int      // truthful non-empty answers to open requests, per peer
+	finisher string
+	midAt    int // number of steps before the finishing phase (-1: none)
 	midDump  string
 	nops     int
 
@@ -176,7 +182,7 @@ func (r *runner) noteBody(ids []int) {
 func newRunner(sc *Scenario) *runner {
 	r := &runner{sc: sc, peers: map[int]*dl.VerifC18Peer{}, hdrIdx: map[common.Hash]int{}, hashID: map[common.Hash]uint64{},
 		rootID: map[common.Hash]uint64{}, txs: map[int]*types.Transaction{}, table: map[string]string{},
-		cur: map[int]*request{}, legal: true, classes: map[string]int{}, midAt: -1}
+		cur: map[int]*request{}, legal: true, classes: map[string]int{}, midAt: -1, dirty: map[int]bool{}, answered: map[int]int{}}
 	r.noteBody(nil)
 	for i, hs := range sc.Headers {
 		h := &types.Header{Number: new(big.Int).SetUint64(hs.Num), Subsidy: big.NewInt(0), GasRewards: big.NewInt(0),
@@ -357,6 +363,23 @@ func (r *runner) exec(op OpSpec) {
 			lists[i] = r.txList(b)
 			r.noteBody(b)
 			bs[i] = idsCoq(b)
+		}
+		if rq := r.cur[op.Peer]; rq != nil { // an answer to an open request: truthful non-empty prefix?
+			ok := len(op.Bodies) > 0
+			for i := 0; ok && i < len(op.Bodies) && i < len(rq.hs); i++ {
+				hs := r.sc.Headers[r.hdrIdx[rq.hs[i].Hash()]]
+				if hs.Junk || idsCoq(op.Bodies[i]) != idsCoq(hs.Body) {
+					ok = false
+				}
+			}
+			if ok {
+				r.answered[op.Peer]++
+				if len(op.Bodies) < len(rq.hs) {
+					r.classes["deliver_honest_but_partial"]++
+				}
+			} else {
+				r.dirty[op.Peer] = true
+			}
 		}
 		acc, err := r.q.DeliverBodies(r.peer(op.Peer).VerifC18ID(), lists)
 		ec := errClass(err)
@@ -541,10 +564,29 @@ func (r *runner) checkNothingLost() {
 	}
 }
 
-// finish: all requests time out, then one fresh honest peer is asked until
-// nothing moves.  In a legal history every accepted block (up to the first
-// header whose root no body can match) must then have been released.
-func (r *runner) finish(rng *vf.Rng, record func(OpSpec)) {
+// honestPeer returns an existing peer that has answered at least once and has
+// so far only given truthful non-empty (full or partial) answers; -1 if none.
+func (r *runner) honestPeer() int {
+	var ks []int
+	for k, n := range r.answered {
+		if n > 0 && !r.dirty[k] {
+			ks = append(ks, k)
+		}
+	}
+	if len(ks) == 0 {
+		return -1
+	}
+	sort.Ints(ks)
+	return ks[0]
+}
+
+// finish: all requests time out, then ONE peer is asked until nothing moves:
+// either a fresh peer (peer < 0) or an existing peer that has so far only given
+// truthful non-empty answers; with partial it keeps answering truthfully but
+// with a random cap per response (the soft response size limit).  In a legal
+// history every accepted block (up to the first header whose root no body can
+// match) must then have been released.
+func (r *runner) finish(rng *vf.Rng, record func(OpSpec), peer int, partial bool) {
 	r.midAt, r.midDump = len(r.steps), r.finalCoq()
 	var all []int
 	for i := range r.peers {
@@ -554,19 +596,32 @@ func (r *runner) finish(rng *vf.Rng, record func(OpSpec)) {
 	run := func(op OpSpec) { record(op); r.exec(op) }
 	run(OpSpec{K: "expire", Peers: all})
 	run(OpSpec{K: "results"})
-	fresh := 900
+	who := "a fresh honest peer"
+	if peer < 0 {
+		peer = 900
+	} else {
+		who = fmt.Sprintf("peer %d, which so far only gave truthful non-empty answers,", peer)
+		r.classes["finish_with_existing_honest_peer"]++
+	}
+	if partial {
+		who += " (truncating its responses)"
+		r.classes["finish_with_partial_answers"]++
+	}
 	idle := 0
-	for round := 0; round < 4*len(r.scheduled)+8 && idle < 2; round++ {
+	for round := 0; round < 8*len(r.scheduled)+8 && idle < 2; round++ {
 		before := len(r.released)
 		qBefore := len(r.lastDump.TaskQueue)
 		cnt := 1 + rng.Intn(6)
-		run(OpSpec{K: "reserve", Peer: fresh, Count: cnt})
-		if rq := r.cur[fresh]; rq != nil {
+		run(OpSpec{K: "reserve", Peer: peer, Count: cnt})
+		if rq := r.cur[peer]; rq != nil {
 			var bodies [][]int
 			for _, h := range rq.hs {
 				bodies = append(bodies, r.sc.Headers[r.hdrIdx[h.Hash()]].Body)
 			}
-			run(OpSpec{K: "deliver", Peer: fresh, Bodies: bodies})
+			if partial && len(bodies) > 1 && rng.Chance(75) {
+				bodies = bodies[:1+rng.Intn(len(bodies)-1)]
+			}
+			run(OpSpec{K: "deliver", Peer: peer, Bodies: bodies})
 		}
 		run(OpSpec{K: "results"})
 		if len(r.released) == before && len(r.lastDump.TaskQueue) == qBefore {
@@ -575,6 +630,7 @@ func (r *runner) finish(rng *vf.Rng, record func(OpSpec)) {
 			idle = 0
 		}
 	}
+	r.finisher = who
 	r.checkCompletion()
 }
 
@@ -590,7 +646,11 @@ func (r *runner) checkCompletion() {
 		want++
 	}
 	if len(r.released) < want {
-		r.hit(fmt.Sprintf("download does not complete: %d of %d accepted blocks released after every request expired and a fresh honest peer answered everything", len(r.released), want))
+		who := r.finisher
+		if who == "" {
+			who = "an honest peer"
+		}
+		r.hit(fmt.Sprintf("download does not complete: %d of %d accepted blocks released after every request expired and %s answered every request truthfully", len(r.released), want, who))
 	} else {
 		r.classes["completed_by_honest_peer"]++
 	}
@@ -676,11 +736,11 @@ func (r *runner) caseCoq() string {
 // the scenario's comment says it was finished.
 func replayScenario(sc *Scenario) *runner {
 	r := newRunner(sc)
-	for i, op := range sc.Ops {
-		if sc.FinishAt > 0 && i == sc.FinishAt {
-			r.checkNothingLost()
-			r.midAt, r.midDump = len(r.steps), r.finalCoq()
-		}
+	ops := sc.Ops
+	if sc.FinishAt > 0 && sc.FinishAt <= len(ops) {
+		ops = ops[:sc.FinishAt]
+	}
+	for _, op := range ops {
 		if op.K == "cancel" && (op.Req < 0 || op.Req >= len(r.reqs)) {
 			continue
 		}
@@ -688,7 +748,8 @@ func replayScenario(sc *Scenario) *runner {
 	}
 	r.checkNothingLost()
 	if sc.FinishAt > 0 {
-		r.checkCompletion()
+		sc.Ops = append([]OpSpec{}, ops...)
+		r.finish(vf.NewRng(sc.FinishSeed), func(op OpSpec) { sc.Ops = append(sc.Ops, op) }, sc.FinishPeer-1, sc.FinishPartial)
 	}
 	return r
 }
@@ -755,6 +816,12 @@ func genScenario(rng *vf.Rng, kind int) *runner {
 	prof := make([]int, npeers)
 	for i := range prof {
 		prof[i] = []int{0, 0, 0, 1, 2, 3, 4, 5, 5}[rng.Intn(9)]
+	}
+	if kind == 3 { // the only answering peers answer truthfully but partially (6); the others stall
+		for i := range prof {
+			prof[i] = []int{6, 1, 1}[rng.Intn(3)]
+		}
+		prof[rng.Intn(npeers)] = 6
 	}
 	allowIllegal := kind == 1
 	next := 0 // next chain header to schedule
@@ -855,7 +922,7 @@ func genScenario(rng *vf.Rng, kind int) *runner {
 				}
 			}
 			if rq == nil { // unsolicited
-				if rng.Chance(6) {
+				if rng.Chance(6) && kind != 3 {
 					run(OpSpec{K: "deliver", Peer: p, Bodies: [][]int{randBody(rng, ntx)}})
 				}
 				continue
@@ -892,6 +959,11 @@ func genScenario(rng *vf.Rng, kind int) *runner {
 				bodies = nil
 			case 4:
 				bodies = bodies[:rng.Intn(len(bodies)+1)]
+			case 6: // truthful, non-empty, capped
+				bodies = bodies[:1+rng.Intn(len(bodies))]
+				if len(bodies) > 1 && rng.Chance(60) {
+					bodies = bodies[:1+rng.Intn(len(bodies)-1)]
+				}
 			default:
 				if rng.Chance(8) { // more than asked
 					bodies = append(bodies, randBody(rng, ntx))
@@ -948,7 +1020,14 @@ func genScenario(rng *vf.Rng, kind int) *runner {
 		r.classes["history_outside_downloader_discipline"]++
 	}
 	sc.FinishAt = len(sc.Ops)
-	r.finish(rng, func(op OpSpec) { sc.Ops = append(sc.Ops, op) })
+	fp, partial := -1, false
+	if hp := r.honestPeer(); hp >= 0 && (kind == 3 || rng.Chance(60)) {
+		fp, partial = hp, true
+	} else if rng.Chance(30) {
+		partial = true
+	}
+	sc.FinishPeer, sc.FinishPartial, sc.FinishSeed = fp+1, partial, rng.U64()
+	r.finish(vf.NewRng(sc.FinishSeed), func(op OpSpec) { sc.Ops = append(sc.Ops, op) }, fp, partial)
 	return r
 }
 
@@ -1035,7 +1114,8 @@ func exhaustive(depth int) (int, []hitRec) {
 		}
 		r.checkNothingLost()
 		sc.FinishAt = len(sc.Ops)
-		r.finish(vf.NewRng(uint64(count)), func(op OpSpec) { sc.Ops = append(sc.Ops, op) })
+		sc.FinishPeer, sc.FinishPartial, sc.FinishSeed = r.honestPeer()+1, true, uint64(count)
+		r.finish(vf.NewRng(sc.FinishSeed), func(op OpSpec) { sc.Ops = append(sc.Ops, op) }, sc.FinishPeer-1, true)
 		count++
 		if len(hits) < 3 {
 			for _, w := range r.hits {
@@ -1108,6 +1188,8 @@ func gen(seed uint64, n int, outDir, corpusDir string, exhaustiveDepth int) {
 			kind = 1 // may leave the downloader's discipline (stale cancel, wrong from)
 		case c < 34:
 			kind = 2 // long chain
+		case c < 52:
+			kind = 3 // only truthful-but-partial answerers and stallers; finished by one of them
 		}
 		runs = append(runs, genScenario(rng, kind))
 	}
@@ -1143,7 +1225,7 @@ func gen(seed uint64, n int, outDir, corpusDir string, exhaustiveDepth int) {
 	res.Cases = len(runs)
 	res.Distinct = len(distinct)
 	res.Extra["operations"] = ops
-	res.Rule = "a case is one scripted history on a fresh queue (cache 1..128 slots, start number, chain of 1..300 headers with empty and non-empty blocks, 1..8 peers that are honest / stall / lie / answer empty / answer partially) ending with 'all requests expire, one fresh honest peer answers'; every operation's return value and a state digest, and the full final state, are compared with the Coq model; 30% of the histories may leave the downloader's discipline (stale CancelBodies, Schedule from a wrong number); non-trivial = at least one request handed out or one block released; distinct by full text. In addition (first shard, oracle only): every sequence of up to 3 (quick) / 4 (thorough) letters of a 13-letter alphabet on 2 peers x 4 blocks x 2 cache slots, each followed by the finishing phase"
+	res.Rule = "a case is one scripted history on a fresh queue (cache 1..128 slots, start number, chain of 1..300 headers with empty and non-empty blocks, 1..8 peers that are honest / stall / lie / answer empty / answer partially) ending with 'all requests expire, then one peer answers every request truthfully' where that peer is a fresh one or (whenever one exists, 60%) an existing peer that so far only gave truthful non-empty answers, possibly truncating its responses; 18% of the histories have only truthful-but-partial answerers and stallers and are finished by one of those answerers; every operation's return value and a state digest, and the full final state, are compared with the Coq model; 30% of the histories may leave the downloader's discipline (stale CancelBodies, Schedule from a wrong number); non-trivial = at least one request handed out or one block released; distinct by full text. In addition (first shard, oracle only): every sequence of up to 3 (quick) / 4 (thorough) letters of a 13-letter alphabet on 2 peers x 4 blocks x 2 cache slots, each followed by the finishing phase"
 	res.Write(filepath.Join(outDir, "result.json"))
 }
 
